@@ -15,7 +15,8 @@ done
 cd /verif || exit 2
 if [ -n "$(git -C /repo status --porcelain --untracked-files=no)" ]; then echo "/repo is not clean"; exit 2; fi
 git -C /repo apply "$d/patch.diff" || { echo "patch does not apply"; exit 2; }
-trap 'git -C /repo checkout -- . ' EXIT INT TERM
+# undo the change, and bring the generated files back to what the unchanged tree gives (they are committed)
+trap 'git -C /repo checkout -- . ; /verif/tools/rs2lean/target/debug/rs2lean /repo /verif/lean/Amqp/Gen /verif/harness/src/gen_typed.rs >/dev/null 2>&1' EXIT INT TERM
 if [ $base = 1 ]; then sh tools/baseline.sh | tail -3; fi
 for p in $props; do
   out=$(VERIF_SEED=${VERIF_SEED:-1} ./run.sh $p quick 2>&1); rc=$?
